@@ -46,7 +46,9 @@ def encv(v):
     return hx(bytes(v)) if isinstance(v, (bytes, bytearray)) else "X"
 
 
-def gen_ops(rng, n, lifecycle):
+def gen_ops(rng, n, lifecycle, bias=False):
+    """`bias`: histories dense in the observations a memo or a lazily refreshed index would get wrong - len / iteration right
+    after sync, delete, clear (a key written before the last sync is no longer in a write-back cache)"""
     ops, closed = [], False
     for _ in range(n):
         r = rng.random()
@@ -58,6 +60,9 @@ def gen_ops(rng, n, lifecycle):
         k = rng.choice(KEYS)
         t = rng.choice(["set", "set", "set", "get", "get", "del", "del", "contains", "len", "iter", "getd", "getd",
                         "clear" if rng.random() < 0.3 else "get", "sync", "items"])
+        if bias:
+            t = rng.choice(["set", "set", "sync", "len", "len", "del", "del", "len", "iter", "contains",
+                            "clear" if rng.random() < 0.2 else "len", "items"])
         if t == "set":
             ops.append(("set", k, rand_val(rng)))
         elif t == "getd":
@@ -313,7 +318,7 @@ def oracle(ctx, res):
     try:
         for i in range(ctx.pick(200, 5000)):
             kind = "pickled" if i % 3 else "dbm"
-            ops = gen_ops(rng, rng.randint(3, 50), lifecycle=(kind == "pickled"))
+            ops = gen_ops(rng, rng.randint(3, 50), lifecycle=(kind == "pickled"), bias=(i % 4 == 1))
             src = None
             if kind == "pickled" and rng.random() < 0.3:
                 src = {rng.choice(KEYS): rb(rng, 2) for _ in range(3)}
